@@ -4,6 +4,15 @@ usage: seeded_meta.py <results dir> [<results dir> ...]   (later directories ove
 import json, os, re, sys
 
 WHAT = {
+ "r7-C01": "LogNormal::from_mean_cv computes mu = ln(mean) - sigma/2 instead of ln(mean) - sigma^2/2 ('overflow fix'): every cv except sqrt(e - 1) (the one the unit test uses) gets the wrong location; KS 0.03 .. 0.18",
+ "r7-C02": "BTPE step 5.3 reuses z = n - m + 1 for the coefficient (n - m + 1/2): log-acceptance bound too high by ln((n-m+1)/(n-y+1)) in the shoulders 20 < |y - m| < npq/2 - 1 (npq > 42); TV 3.8e-4 (n = 200) .. 5.7e-3 (n = 1000, p = 0.5)",
+ "r7-C03": "Gumbel rewritten as location - scale ln(-ln_1p(-u)) with u from StandardUniform ([0, 1)): u == 0 (the all-zeros word; 1 of 2^24 f32 draws) gives +inf",
+ "r7-C04": "DirichletFromBeta::new reverse cumulative sum rewritten with (0..=(n - 3)).rev(): usize underflow / index panic in Dirichlet::new for length 2 with every alpha <= 0.1",
+ "r7-C05": "Zeta stores r = (b - 1)/b instead of b = 2^(s-1): inf/inf = NaN once b overflows (f64 s >= 1025, f32 s >= 129), every proposal rejected, sample() never returns",
+ "r7-C07": "Triangular::sample returns min when max - min < F::epsilon() ('degenerate support' fast path with an absolute threshold): supports narrower than epsilon next to 0 collapse to a point (f32: width < 1.2e-7)",
+ "r7-C09": "WeightedTreeIndex push / increasing update: overflow pre-check on the root replaced by a checked bottom-up walk; the root is visited last, so an Err(Overflow) leaves the inner ancestors incremented (slot depth >= 2, integer weights)",
+ "r7-C10": "WeightedTreeIndex::try_sample returns Ok(0) for any one-element tree before the total > 0 test: a single zero weight is sampled (reachable by new([0]), update(0, 0), or pops down to a zeroed root)",
+ "r7-C15": "Binomial's Btpe payload serialised as {n, p} only, m recomputed on load as floor((n + 1) p) instead of floor(n p + p): differs by one when (n + 1) p is an integer (two equal modes; 0.3 % of a (n, p/100) grid), value unequal and 92 % of samples differ",
  "r6-C01": "Beta gets a third algorithm (inverse CDF) for min(alpha, beta) == 1 exactly with the switched_params selection the wrong way round: Beta(1, b) is sampled as Beta(b, 1) (KS 1 - 2^(1-b)); Pert with the mode at an end inherits it",
  "r6-C02": "Zipf uses the s == 1 logarithmic hat whenever |s - 1| < 2^-8 while the acceptance ratio still assumes the x^-s hat: the law becomes essentially Zipf(n, 1); TV 1.4e-3 (n = 10) .. 7e-3 (n = 1e6) for 0 < |s - 1| < 0.0039",
  "r6-C03": "InverseGaussian root with a factored out of the radicand (a * sqrt(1 + 2/a)): 0 * inf = NaN when the normal draw is exactly 0 (f64: one word in 2^52; f32 with mean/shape << 1: a band)",
